@@ -62,6 +62,9 @@ pub enum RxPrior {
     AbandonedSameHeader,
     /// an unfinished train on an aliasing fragment id (same memory slot)
     AbandonedAlias,
+    /// rejected continuation packets (intermediate and end fragments of unknown ids, left over from a PDU whose first
+    /// fragment was lost) seen right before the transfer
+    Strays,
 }
 
 impl RxPrior {
@@ -70,11 +73,12 @@ impl RxPrior {
             RxPrior::Fresh => "fresh",
             RxPrior::AbandonedSameHeader => "abandoned-same-header",
             RxPrior::AbandonedAlias => "abandoned-alias",
+            RxPrior::Strays => "strays",
         }
     }
 }
 
-pub const RX_PRIORS: [RxPrior; 3] = [RxPrior::Fresh, RxPrior::AbandonedSameHeader, RxPrior::AbandonedAlias];
+pub const RX_PRIORS: [RxPrior; 4] = [RxPrior::Fresh, RxPrior::AbandonedSameHeader, RxPrior::AbandonedAlias, RxPrior::Strays];
 
 pub struct Case {
     pub pdu: Vec<u8>,
@@ -116,6 +120,7 @@ impl Case {
                     }
                     v
                 }
+                RxPrior::Strays => vec![Desc::inter(self.frag_id.wrapping_add(77), &[0xD1, 0xD2]).print(), Desc::end(self.frag_id.wrapping_add(78), &[0xD3], 0x0102_0304).print()],
                 _ => vec![Desc::first(lw, 0x86DD, self.frag_id.wrapping_add(2), (p + 9) as u16, &self.pdu[..p.min(1)]).print()],
             };
             for q in pkts {
@@ -282,7 +287,7 @@ pub fn case_from_desc(desc: &str) -> Option<Case> {
 
 pub fn run(tier: Tier) -> i32 {
     let rep = Report::new("C02", tier);
-    rep.set_rule("for each case (PDU length, content pattern, label kind incl. first fragment replaced by re-use, protocol type, fragment id, storage size, receiver prior state: fresh / an unfinished earlier attempt with the same header on the same fragment id / an unfinished train on an aliasing id) the graph sender-progress x real-receiver under 'offer buffer of size b' is explored to closure: small regime = every PDU length 0..=40 (thorough 0..=96) with the complete buffer alphabet 0..=p+24 plus 4097/4098/65535/65536/65537/65586/69632/70000; medium regime = PDU lengths {100,255,256,257,300,513,1000,2049} with ~35 buffer sizes around the 8-bit boundary; large regime = PDUs needing fragmentation (4094..9000; thorough up to the 16-bit limit, all positions; quick additionally PDUs of 32767/33000/40000 bytes and at the 16-bit limit over the positions reachable with buffers {7, 1500, 4096, 4097, 4098, 70000}) with buffers {0..=16, 100, 1000, 4090..=4100, 5000, 65535, 70000}, states keyed by position with the receiver snapshot checked equal to the one determined by the position; every produced packet is fed to the real decap; liveness by a strictly decreasing rank for buffers >= 13; distinct = (call, status, buffer regime)");
+    rep.set_rule("for each case (PDU length, content pattern, label kind incl. first fragment replaced by re-use, protocol type, fragment id, storage size, receiver prior state: fresh / an unfinished earlier attempt with the same header on the same fragment id / an unfinished train on an aliasing id / rejected continuation packets of unknown ids just seen) the graph sender-progress x real-receiver under 'offer buffer of size b' is explored to closure: small regime = every PDU length 0..=40 (thorough 0..=96) with the complete buffer alphabet 0..=p+24 plus 4097/4098/65535/65536/65537/65586/69632/70000; medium regime = PDU lengths {100,255,256,257,300,513,1000,2049} with ~35 buffer sizes around the 8-bit boundary; large regime = PDUs needing fragmentation (4094..9000; thorough up to the 16-bit limit, all positions; quick additionally PDUs of 32767/33000/40000 bytes and at the 16-bit limit over the positions reachable with buffers {7, 1500, 4096, 4097, 4098, 70000}) with buffers {0..=16, 100, 1000, 4090..=4100, 5000, 65535, 70000}, states keyed by position with the receiver snapshot checked equal to the one determined by the position; every produced packet is fed to the real decap; liveness by a strictly decreasing rank for buffers >= 13; distinct = (call, status, buffer regime)");
     rep.assume("payload contents: 4 patterns (all contents of length <= 2 are swept by C01/C12); protocol types {0x0800, 0x86DD, 0xFFFF}; fragment ids {0, 1, 255} (all 256 for one PDU length)");
     small(&rep, tier);
     large(&rep, tier);
